@@ -27,6 +27,11 @@ pub enum Op {
     Remove(u64),
     /// read a document (a read that may overlap writers)
     Get(u64),
+    /// the document object of `id` vanishes from the backend (outside the API),
+    /// then `reconcile_storage()` repairs the collection
+    LoseAndReconcile(u64),
+    /// synchronous, in-memory `set_extension` (persisted by the next flush / close)
+    SetExtSync(u8),
     Flush,
     CompactBtree,
     CompactBm25,
@@ -76,6 +81,17 @@ pub fn template(t: u8) -> VDoc {
         3 => vdoc_codes("n3", 5, Some(1), &[], &[], "delta alpha"),
         4 => vdoc_codes("n4", 10, Some(1), &["a"], &["w", "x"], "omega"),
         5 => vdoc_codes("n5", 20, Some(3), &["b"], &["y", "v"], "beta"),
+        // (opt, opt2) = (7, none) and (none, 7): different tuples whose non-null parts coincide
+        6 => {
+            let mut d = vdoc_codes("n6", 60, Some(7), &[], &["c6"], "gamma");
+            d.opt2 = None;
+            d
+        }
+        7 => {
+            let mut d = vdoc_codes("n7", 70, None, &[], &["c7"], "gamma");
+            d.opt2 = Some(7);
+            d
+        }
         // bulk documents p<k> with unique name / code, for preloaded start states
         t if t >= 100 => {
             let k = t as u64 - 100;
@@ -308,6 +324,15 @@ impl Fixture {
                     Err(e) => Outcome::Err(classify(&e)),
                 }
             }
+            Op::LoseAndReconcile(id) => {
+                use object_store::ObjectStoreExt;
+                let path = object_store::path::Path::from(format!("{}/{}/data/{id}.cbor", fixture::DB_NAME, fixture::COLL_NAME));
+                let _ = self.store.delete(&path).await;
+                match self.coll.reconcile_storage().await {
+                    Ok(_) => Outcome::Unit,
+                    Err(e) => Outcome::Err(classify(&e)),
+                }
+            }
             other => exec_on(&self.coll, other).await.unwrap(),
         }
     }
@@ -356,6 +381,11 @@ pub async fn exec_on(coll: &Collection, op: &Op) -> Option<Outcome> {
             Ok(None) => Outcome::Removed(None),
             Err(e) => Outcome::Err(classify(&e)),
         },
+        Op::SetExtSync(v) => {
+            coll.set_extension("k".to_string(), Fv::U64(*v as u64));
+            Outcome::Unit
+        }
+        Op::LoseAndReconcile(_) => return None,
         Op::Get(id) => match coll.get_as::<VDoc>(*id).await {
             Ok(d) => Outcome::Doc(Box::new(d)),
             Err(e) => Outcome::Err(classify(&e)),
@@ -414,6 +444,7 @@ impl SeqModel {
             Some(*i) != except
                 && ((idx.name && x.name == d.name)
                     || (idx.age_opt && x.age == d.age && x.opt == d.opt)
+                    || (idx.opt_opt2 && x.opt == d.opt && x.opt2 == d.opt2)
                     || (idx.codes && x.codes.iter().any(|c| d.codes.contains(c))))
         })
     }
@@ -490,7 +521,10 @@ impl SeqModel {
             (Op::Flush, Outcome::Unit) | (Op::Reopen, Outcome::Unit) | (Op::ReopenWith(_), Outcome::Unit) => {
                 self.flushed_ids.extend(self.docs.docs.keys().copied());
             }
-            (Op::SaveExt(v), Outcome::Unit) => self.ext = Some(*v),
+            (Op::SaveExt(v), Outcome::Unit) | (Op::SetExtSync(v), Outcome::Unit) => self.ext = Some(*v),
+            (Op::LoseAndReconcile(id), Outcome::Unit) => {
+                self.docs.docs.remove(id);
+            }
             (Op::RemoveExt, Outcome::Unit) => self.ext = None,
             _ => {}
         }
